@@ -266,12 +266,15 @@ def fenceReplayOK (msgs : List Bytes) (stalledLast : Bool) (tr : MD) (oc : Nat) 
     (match s.trW with | some t => mdLines t == mdLines md | none => false)
   | none => false
 
-/-- the same over WebSocket: the observed message list must be the LTS output frame by frame -/
-def fenceReplayWSOK (msgs : List Bytes) (stalledLast : Bool) (tr : MD) (oc : Nat) (om : Bytes) (md : MD) (wsm : List Bytes) : Bool :=
-  match GB.LTS.run Fence.step (Fence.init .fixed .ws) (fenceLabels true msgs stalledLast tr oc om) with
+/-- the same over WebSocket: the observed message list must be the LTS output frame by frame (the two metadata frames
+    compared as line multisets: Go map order) -/
+def fenceReplayWSOK (msgs : List Bytes) (stalledLast : Bool) (sh tr : MD) (oc : Nat) (om : Bytes) (hmd md : MD) (wsm : List Bytes) : Bool :=
+  match GB.LTS.run Fence.step (Fence.init .fixed .ws) (Fence.Lbl.setHeader sh :: fenceLabels true msgs stalledLast tr oc om) with
   | some s =>
-    s.phase == .done && beqBs (s.out.dropLast ++ [lpmTrailer md]) wsm &&
-    (match s.trW with | some t => mdLines t == mdLines md | none => false)
+    let core (l : List Bytes) : List Bytes := (if s.hdrW.isSome then l.drop 1 else l).dropLast
+    s.phase == .done && s.out.length == wsm.length && beqBs (core s.out) (core wsm) &&
+    (match s.hdrW with | some h => mdLines h == mdLines hmd && wsm.head? == some (lpmTrailer hmd) | none => true) &&
+    (match s.trW with | some t => mdLines t == mdLines md && wsm.getLast? == some (lpmTrailer md) | none => false)
   | none => false
 
 def handleHTTP (i o : List String) : String :=
@@ -511,14 +514,18 @@ def handleWS (i o : List String) : String :=
           let rvOK : Bool := (early && !stalled) || (ea != "-" && (kv? "sp" i) == some "flood") || oresListEq rv mrv
           let md := match parseTrailer block with | some m => m | none => []
           let hmd := match hdr with | some h => (match parseTrailer h with | some m => m | none => [([0], [])]) | none => []
-          let respOK : Bool := beqBs wsm (wsRespondWith hmd msgs md) && (hdr.isSome == !msgs.isEmpty) && hmd.isEmpty &&
+          -- response header metadata: scripted (`hm=`), what the forwarder handed to SetHeader (`sh=`), the header frame on the wire
+          let hm := ((kv? "hm" i).bind (parseList parseKV)).getD []
+          let sh := ((kv? "sh" o).bind (parseList parseKV)).getD []
+          let respOK : Bool := beqBs wsm (wsRespondWith hmd msgs md) && (hdr.isSome == !msgs.isEmpty) &&
+            (hdr.isNone || mdLines hmd == mdLines (encodeMD sh)) && subMD sh hm &&
             mdLines md == mdLines (encodeMD (trailerWithStatus tr oc om)) && subMD tr tm
           let ocOK : Bool := if routed then
               ocs != "-" && (match rv.getLast? with | some (.err c) => early || oc == c | _ => true)
             else if !hdOK then oc == 3 && ocs == "-" && rv.isEmpty && tg.isEmpty && sd.isEmpty
             else ocs != "-" && routeOutcomeOK rt oc om && rv.isEmpty && tg.isEmpty && sd.isEmpty
           let fenceOK : Bool := !routed || !hdOK || (wsm.foldl (fun a m => a + m.length) 0) > 200000 ||
-            fenceReplayWSOK msgs (stalled && decide (msgs.length > sd.length)) tr oc om md wsm
+            fenceReplayWSOK msgs (stalled && decide (msgs.length > sd.length)) sh tr oc om hmd md wsm
           if !rvOK then s!"DIFF model=rv:{showResList mrv}"
           else if !respOK then "DIFF model=ws-messages"
           else if !fenceOK then "DIFF model=fence-lts-replay"
